@@ -26,7 +26,7 @@ func (fv *FuncVC) sliceOp(x *ssa.Slice) {
 	if hasMax {
 		mx = fv.val(x.Max)
 	}
-	switch u := x.X.Type().Underlying().(type) {
+	switch u := under(x.X.Type()).(type) {
 	case *types.Slice:
 		s := fv.val(x.X)
 		if s.Sort == SBSeq {
@@ -124,11 +124,11 @@ func (fv *FuncVC) zeroRange(p Term, n Term, et types.Type) {
 	var hs []hz
 	var walk func(t types.Type, off int64)
 	walk = func(t types.Type, off int64) {
-		switch t.Underlying().(type) {
+		switch under(t).(type) {
 		case *types.Struct:
 			si := fv.TE.StructInfo(t)
 			for _, f := range si.Fields {
-				switch f.Type.Underlying().(type) {
+				switch under(f.Type).(type) {
 				case *types.Struct:
 					walk(f.Type, off+f.Off)
 				case *types.Array:
@@ -180,7 +180,7 @@ func (fv *FuncVC) mapLen(s *State, m Term) Term {
 }
 
 func (fv *FuncVC) lookup(x *ssa.Lookup) {
-	switch u := x.X.Type().Underlying().(type) {
+	switch u := under(x.X.Type()).(type) {
 	case *types.Map:
 		has, get, _, vs := fv.mapFuns(u)
 		m, k := fv.val(x.X), fv.val(x.Index)
@@ -288,6 +288,13 @@ func (fv *FuncVC) rangeNext(x *ssa.Next) {
 	fv.assume(eq(vc, v))
 	fv.assume(fv.TE.rangeFact(kc, mt.Key()))
 	fv.assume(fv.TE.rangeFact(vc, mt.Elem()))
+	// A-BOOL: a Go bool in memory is the byte 0 or 1
+	if fv.TE.SortOf(mt.Key()) == SBool {
+		fv.assume(le(sel(M, kAddr), intLit(1)))
+	}
+	if fv.TE.SortOf(mt.Elem()) == SBool {
+		fv.assume(le(sel(M, vAddr), intLit(1)))
+	}
 	fv.tuples[x] = []Term{okT, kc, vc}
 	fv.cur.ghost[g] = ite(okT, add(j, intLit(1)), j)
 	fv.noteMapCast(r, x.Pos())
@@ -804,7 +811,7 @@ func (fv *FuncVC) appendOp(x *ssa.Call) {
 			fv.abort("append of struct-element slices supports only explicit elements at %s", fv.pos(x.Pos()))
 		}
 		for _, f := range si.Fields {
-			switch f.Type.Underlying().(type) {
+			switch under(f.Type).(type) {
 			case *types.Struct, *types.Array:
 				fv.abort("append: nested struct field %s", f.GoName)
 			}
